@@ -65,10 +65,12 @@ def check_shard_proof(shard_proof: bytes, blk: BlockIdExt, shrd_blk: BlockIdExt)
         raise ProofError('block info mismatch')
 
     mc_state_hash = mc_state_root[0].get_hash(0)
+    check_proof(mc_block_cell, blk.root_hash)
     state_hash = check_block_header_proof(mc_block_cell[0], blk.root_hash, True)
 
     if mc_state_hash != state_hash:
         raise ProofError('mc state hashes mismatch')
+    check_proof(mc_state_root, state_hash)
 
     shard = ShardStateUnsplit.deserialize(mc_state_root[0].begin_parse())
 
@@ -96,10 +98,12 @@ def check_account_proof(proof: bytes, shrd_blk: BlockIdExt, address: "Address", 
 
     state_cell = proof_cells[1]
 
+    check_proof(proof_cells[0], shrd_blk.root_hash)
     state_hash = check_block_header_proof(proof_cells[0][0], shrd_blk.root_hash, True)
 
     if state_cell[0].get_hash(0) != state_hash:
         raise ProofError('state hashes mismatch')
+    check_proof(state_cell, state_hash)
 
     shard = ShardStateUnsplit.deserialize(state_cell[0].begin_parse())
 
